@@ -214,23 +214,21 @@ impl PathSliceList {
                 write!(w, r#":"#)?;
                 false_br.write_lvalue_path(w, scopes, model)?;
             } else {
-                // a branch may itself be a conditional: parenthesised, so that `.concat` applies to all of it
-                write!(w, r#"{}?("#, cond)?;
+                // `Q.e(path, rest)` appends the rest to the path of the branch; the path of a branch is `null`
+                // at run time when the branch is a `wx:for` item whose list has no data path
+                write!(w, r#"{}?Q.e("#, cond)?;
                 let true_written = true_br.write_lvalue_path(w, scopes, model)?.is_some();
-                write!(w, r#")"#)?;
                 if true_written {
-                    write!(w, r#".concat("#)?;
+                    write!(w, r#","#)?;
                     br(w)?;
-                    write!(w, r#")"#)?;
                 }
-                write!(w, r#":("#)?;
+                write!(w, r#"):Q.e("#)?;
                 let false_written = false_br.write_lvalue_path(w, scopes, model)?.is_some();
-                write!(w, r#")"#)?;
                 if false_written {
-                    write!(w, r#".concat("#)?;
+                    write!(w, r#","#)?;
                     br(w)?;
-                    write!(w, r#")"#)?;
                 }
+                write!(w, r#")"#)?;
             }
         } else {
             br(w)?;
